@@ -117,12 +117,21 @@ type VC struct {
 // that existed at entry. Returns "" if h is not an address-indexed heap or is wholly modifiable.
 func (vc *VC) frameGoal(h, cur string) string {
 	srt, ok := vc.d.heapSort[h]
-	if !ok || !strings.HasPrefix(srt, "(Array Int ") || strings.HasPrefix(h, "$") {
+	if !ok || strings.HasPrefix(h, "$") {
 		return ""
 	}
 	old := vc.stGet(vc.entrySt, h)
 	if cur == old {
 		return ""
+	}
+	if !strings.HasPrefix(srt, "(Array Int ") {
+		// scalar state component (package-level ghost variable)
+		for _, t := range vc.frameTg[h] {
+			if t.ref == "" {
+				return ""
+			}
+		}
+		return fmt.Sprintf("(= %s %s)", cur, old)
 	}
 	var excl, idxExcl []string
 	for _, t := range vc.frameTg[h] {
